@@ -13,6 +13,7 @@ mod polyio;
 mod polyops;
 
 mod c01;
+mod c02;
 mod c11;
 
 use std::io::{BufRead, Write};
@@ -24,6 +25,7 @@ type RunFn = fn(&str) -> Obs;
 fn table(prop: &str) -> Option<(GenFn, RunFn)> {
     match prop {
         "C01" => Some((c01::generate, c01::run)),
+        "C02" => Some((c02::generate, c02::run)),
         "C11" => Some((c11::generate, c11::run)),
         "POLY" => Some((polyops::generate, polyops::run)),
         _ => None,
